@@ -11,9 +11,10 @@ A = (0, 0xffff)
 F = []  # forms
 
 
-def form(name, prop, call, b0, b1, w=(), pre=1, pc="fixed", assume="true", group=None):
+def form(name, prop, call, b0, b1, w=(), pre=1, pc="fixed", assume="true", group=None, oracle=None, regmask=0xffffffff, relax=False, tier="quick", bounded=None):
     ws = list(w) + [A] * (4 - len(w))
-    F.append(dict(name=name, prop=prop, call=call, b0=b0, b1=b1, w=ws, pre=pre, pc=pc, assume=assume, group=group or prop))
+    F.append(dict(name=name, prop=prop, call=call, b0=b0, b1=b1, w=ws, pre=pre, pc=pc, assume=assume, group=group or prop,
+                  oracle=oracle or name, regmask=regmask, relax=relax, tier=tier, bounded=bounded))
 
 
 def c(v):  # concrete byte
@@ -64,8 +65,15 @@ form("SUBS_2", P, "cpu.subs2(op)", c(0x1b), (0x80, 0x07))
 form("SUBS_4", P, "cpu.subs4(op)", c(0x1b), (0x90, 0x07))
 form("MULXU_B", P, "cpu.mulxu_b(op)", c(0x50), ANY8, group="C02mb")
 form("MULXU_W", P, "cpu.mulxu_w(op)", c(0x52), (0x00, 0xf7), group="C02mw")
-form("DIVXU_B", P, "cpu.divxu_b(op)", c(0x51), ANY8, group="C02db")
-form("DIVXU_W", P, "cpu.divxu_w(op)", c(0x53), (0x00, 0xf7), group="C02dw")
+# DIVXU: proving two independent divider circuits equal is expensive for SAT (16/8: ~8 min) or out of reach (32/16).
+#   *_STRUCT  full domain, quotient/remainder lanes left open by the oracle: flags, other registers, PC, cost   (quick)
+#   *_SMALL   every register restricted to 4-bit lanes, full value check                                   (quick, BOUNDED)
+#   DIVXU_B   full domain, full value check                                                                (thorough)
+form("DIVXU_B", P, "cpu.divxu_b(op)", c(0x51), ANY8, group="C02db", tier="thorough")
+form("DIVXU_B_STRUCT", P, "cpu.divxu_b(op)", c(0x51), ANY8, group="C02dq", oracle="DIVXU_B", relax=True)
+form("DIVXU_B_SMALL", P, "cpu.divxu_b(op)", c(0x51), ANY8, group="C02dq", oracle="DIVXU_B", regmask=0x0f0f0f0f, bounded="DIVXU.B value clause: registers restricted to 4-bit lanes (mask 0x0f0f0f0f)")
+form("DIVXU_W_STRUCT", P, "cpu.divxu_w(op)", c(0x53), (0x00, 0xf7), group="C02dq", oracle="DIVXU_W", relax=True)
+form("DIVXU_W_SMALL", P, "cpu.divxu_w(op)", c(0x53), (0x00, 0xf7), group="C02dq", oracle="DIVXU_W", regmask=0x000f000f, bounded="DIVXU.W value clause: registers restricted to 4-bit lanes (mask 0x000f000f); the full 32/16 divider equivalence is beyond CBMC's reach")
 
 # ---------------------------------------------------------------- C03 logic / shift / rotate
 P = "C03"
@@ -185,7 +193,7 @@ form("STC_W_A24", P, "cpu.stc_abs24()", c(0x01), c(0x40), [(0x6ba0, 0), (0, 0x00
 GROUP_SIZE = int(os.environ.get("KOGE29_GROUP_SIZE", "6"))
 # heavy forms (memory operands, symbolic PC) verify faster alone; light register forms share a harness
 # to amortise Kani's per-harness pipeline cost.  Grouping never changes what is proved.
-GROUP_SIZES = {"C01b": 1, "C01w": 1, "C01l": 1, "C01r": 2, "C04m": 2, "C05b": 1, "C05j": 1, "C05s": 1, "C05t": 1, "C06": 1, "C07s": 2}
+GROUP_SIZES = {"C02dq": 1, "C01b": 1, "C01w": 1, "C01l": 1, "C01r": 2, "C04m": 2, "C05b": 1, "C05j": 1, "C05s": 1, "C05t": 1, "C06": 1, "C07s": 2}
 
 
 def spec(t):
@@ -198,8 +206,8 @@ def main():
     for f in F:
         fn = "f_" + f["name"].lower()
         out.append(
-            "step_harness!(%s, \"%s\", %s, pc=%s, b0=%s, b1=%s, w=[%s], pre=%d, assume=|b1, w| %s, |cpu, op, op2| %s);\n"
-            % (fn, f["prop"], f["name"], f["pc"], spec(f["b0"]), spec(f["b1"]), ",".join(spec(x) for x in f["w"]), f["pre"], f["assume"], f["call"])
+            "step_harness!(%s, \"%s\", %s, %s, pc=%s, regmask=0x%xu32, relax=%s, b0=%s, b1=%s, w=[%s], pre=%d, assume=|b1, w| %s, |cpu, op, op2| %s);\n"
+            % (fn, f["prop"], f["oracle"], f["name"], f["pc"], f["regmask"], "true" if f["relax"] else "false", spec(f["b0"]), spec(f["b1"]), ",".join(spec(x) for x in f["w"]), f["pre"], f["assume"], f["call"])
         )
         groups.setdefault(f["group"], []).append(f)
     reg = {"forms": {}, "groups": {}}
@@ -211,7 +219,7 @@ def main():
             out.append("step_group!(%s, [%s]);\n" % (gname, ", ".join("f_" + x["name"].lower() for x in chunk)))
             reg["groups"][gname] = [x["name"] for x in chunk]
             for x in chunk:
-                reg["forms"][x["name"]] = {"prop": x["prop"], "group": gname, "call": x["call"], "pre": x["pre"]}
+                reg["forms"][x["name"]] = {"prop": x["prop"], "group": gname, "call": x["call"], "pre": x["pre"], "oracle": x["oracle"], "tier": x["tier"], "bounded": x["bounded"], "relax": x["relax"]}
     here = os.path.dirname(os.path.abspath(__file__))
     open(os.path.join(here, "forms_gen.rs"), "w").write("".join(out))
     os.makedirs(os.path.join(here, "..", "lib"), exist_ok=True)
